@@ -74,6 +74,45 @@ Json gen(sim::Rng& rng, int tier)
         for (size_t i = 0; i + 2 < conns.size() && i < 2; ++i) c2.push(conns.at(i));
         conns = c2;
     }
+    // descriptor reuse behind a queued reply: a client leaves at about the moment the application thread answers it; that
+    // thread is descheduled on its way into the worker's queue (after it has made sure of the peer, before the entry is in
+    // the queue) while the worker closes the connection and a latecomer is accepted under the same descriptor number. The
+    // reply that arrives in the queue afterwards belongs to nobody; the latecomer must get its own answer and nothing else.
+    if (rng.chance(0.12)) {
+        p["workers"] = 1;
+        p["app_gather_us"] = 0;
+        int R = static_cast<int>(200 + rng.below(800));
+        p["app_delay_us"] = R;
+        Json c5 = Json::array();
+        int pairs = static_cast<int>(rng.range(1, 2));
+        for (int i = 0; i < pairs; ++i) {
+            Json a = Json::object();
+            a["kind"] = "async-gone";
+            a["ms"] = static_cast<int>(rng.below(2));
+            a["size"] = static_cast<int>(50 + rng.below(2000));
+            a["tag"] = static_cast<long long>(tag += 10);
+            a["start_us"] = i * 40;
+            a["latency_us"] = 20;
+            int leave = R - 100 + static_cast<int>(rng.below(200));
+            a["leave_us"] = std::max(1, leave);
+            c5.push(a);
+            Json b = Json::object();
+            b["kind"] = "size";
+            b["ms"] = 0;
+            b["size"] = static_cast<int>(rng.below(300));
+            b["tag"] = static_cast<long long>(tag += 10);
+            b["start_us"] = i * 40 + 60 + leave + static_cast<int>(50 + rng.below(600)); // right behind the one that left
+            b["latency_us"] = 20;
+            b["leave_us"] = 0;
+            b["send_after_us"] = static_cast<int>(1500 + rng.below(3000));          // its request comes a little later
+            c5.push(b);
+        }
+        conns = c5;
+        p["reuse"] = true;
+        Json hs = Json::array();
+        hs.push(std::string("queue.push.exchange"));
+        p["hot_sites"] = hs; // (moved into "sched" below, once gen_sched has drawn it)
+    }
     // long-poll across workers: requests park their response (with a long time-out); later requests - on whichever worker
     // their connection belongs to - complete the parked ones from inside their handler. A write issued on one worker's
     // thread for a connection of another worker goes through that other worker's queue and has to wake *its* loop.
@@ -131,6 +170,13 @@ Json gen(sim::Rng& rng, int tier)
     }
     p["conns"] = conns;
     gen_sched(rng, p, 3000, false);
+    if (p.flag("reuse")) {
+        p["sched"]["hot_sites"] = p["hot_sites"];
+        p["sched"]["hot_thread_prefix"] = "app";
+        p["sched"]["hot_pause_permille"] = static_cast<int>(500 + rng.below(500));
+        p["sched"]["pause_max_us"] = static_cast<int>(500 + rng.below(3000));
+        p["sched"]["max_pauses"] = 8;
+    }
     return p;
 }
 
@@ -146,6 +192,7 @@ void run(const Json& plan)
     o.app_gather_ns = std::max<i64>(0, std::min<i64>(plan.num("app_gather_us", 0), 20000)) * 1000;
     w.start(o);
     if (plan.flag("crowd")) r.probe("crowd");
+    if (plan.flag("reuse")) r.probe("latecomer-on-a-reused-descriptor");
     using actors::Step;
     const Json& conns = plan.get("conns");
     struct Want { std::string kind, target, body; i64 ms = 0; };
@@ -181,7 +228,9 @@ void run(const Json& plan)
             wt.body = actors::pattern(tag, size);
         }
         wants.push_back(wt);
-        std::vector<Step> st { httpw::step(Step::Connect), httpw::send_step(actors::http_request("GET", wt.target, { { "Host", "sim" }, { "Connection", "keep-alive" } }, "")) };
+        std::vector<Step> st { httpw::step(Step::Connect) };
+        if (c.num("send_after_us", 0) > 0) st.push_back(httpw::step(Step::Pause, c.num("send_after_us", 0) * 1000));
+        st.push_back(httpw::send_step(actors::http_request("GET", wt.target, { { "Host", "sim" }, { "Connection", "keep-alive" } }, "")));
         if (wt.kind == "async-gone") {
             // gone at about the moment the application thread replies: the reply is queued while the peer is still known, and
             // the loop thread learns of the disconnection before it gets to the queue
